@@ -234,6 +234,55 @@ func runC15(ctx *core.Ctx) {
 		}
 	}
 
+	// ---- X1 (converse): only escaping names are refused
+	{
+		isNameVal := func(v ssa.Value) bool {
+			c, ok := v.(*ssa.Call)
+			return ok && ssax.CalleeName(&c.Call) == "path/filepath.Clean"
+		}
+		n := 0
+		for _, r := range g.Returns() {
+			rv := ssax.ReturnValues(r)
+			ec, isCall := rv[len(rv)-1].(*ssa.Call)
+			if !isCall || ssax.CalleeName(&ec.Call) != "fmt.Errorf" {
+				continue
+			}
+			if f, _ := ssax.ConstString(ec.Call.Args[0]); !strings.Contains(f, "outside") {
+				continue
+			}
+			n++
+			exact := onAllPaths(g, r, nil, func(f ssax.Fact) bool {
+				if !f.Val {
+					return false
+				}
+				// isAbs(p) / filepath.IsAbs(p) / !IsLocal is not expressible as a true fact; p == ".."; HasPrefix(p, ".."+sep)
+				if c, ok := f.Cond.(*ssa.Call); ok {
+					nm := ssax.CalleeName(&c.Call)
+					if nm == "path/filepath.IsAbs" {
+						return true
+					}
+					if cal := c.Call.StaticCallee(); cal != nil && core.InModule(cal) && impliesIsAbs(p, cal, sep) {
+						return true
+					}
+					if nm == "strings.HasPrefix" && len(c.Call.Args) == 2 && isNameVal(c.Call.Args[0]) {
+						if pre, ok := ssax.ConstString(c.Call.Args[1]); ok && pre == ".."+sep {
+							return true
+						}
+						if b, ok := c.Call.Args[1].(*ssa.BinOp); ok && b.Op == token.ADD {
+							if pre, ok := ssax.ConstString(b.X); ok && pre == ".." {
+								return true
+							}
+						}
+					}
+				}
+				return cmpFact([]ssax.Fact{f}, token.EQL, isNameVal, isConstStr(".."))
+			})
+			ctx.Check(exact, "X1", "txtar.Write#refusal"+itoa(n), r.Pos(), "an entry is refused as 'outside' only when its cleaned name is absolute, is \"..\", or starts with \"..\"+separator (a weaker test such as HasPrefix(name, \"..\") also refuses legal names like ..data/token, and the round trip loses them)")
+		}
+		if n == 0 {
+			ctx.Note("X1", "txtar.Write#refusal", w.Pos(), "no 'outside parent directory' return found")
+		}
+	}
 	// ---- X4 txtar-x
 	if m := ctx.Need("X4", "cmd/txtar-x", "main"); m != nil {
 		mg := graph(p, m)
